@@ -96,7 +96,7 @@ Print Assumptions C11_example_cap.
 
 Example C11_example_names :
   validate [("x", ["y"; "import"]); ("y", [])] ["self"; "k"; "yield"] ["self"; "import"] = Err NameError.
-Proof. apply C11_names with (p := ex1). exists "x", ["y"; "import"]. split; [now left|]. right. exists "import". simpl. tauto. Qed.
+Proof. refine (proj1 (C11_names _ _ _ ex1 _)). exists "x", ["y"; "import"]. split; [now left|]. right. exists "import". simpl. tauto. Qed.
 Print Assumptions C11_example_names.
 
 (* ---- the code before the fixes *)
